@@ -1627,11 +1627,11 @@ Proof.
   assert (E : f02a_check = true) by (vm_compute; reflexivity). unfold f02a_check in E.
   apply andb_true_iff in E as [E E6]. apply andb_true_iff in E as [E E5]. apply andb_true_iff in E as [E E4]. apply andb_true_iff in E as [E E3].
   apply andb_true_iff in E as [E1 E2]. apply negb_true_iff in E1, E2. apply Z.eqb_eq in E5.
-  destruct (run_many P.cfB f02a_s [P.ex_draws [1] [4] [1000]]) as [s1| |] eqn:Er; try discriminate.
+  destruct (run_many P.cfB f02a_s [P.ex_draws [1] [4] [1000]]) as [s1| |] eqn:Er; [|discriminate E6|discriminate E6].
   apply andb_true_iff in E6 as [E6 E7]. apply Z.eqb_eq in E6.
-  destruct (event_step P.cfB (s1 <| dr := P.ex_draws [] [] [] |>)) as [[[] s2]| |] eqn:Ee; try discriminate. apply Z.eqb_eq in E7.
+  destruct (event_step P.cfB (s1 <| dr := P.ex_draws [] [] [] |>)) as [[[] s2]| |] eqn:Ee; [|discriminate E7|discriminate E7]. apply Z.eqb_eq in E7.
   exists P.cfB, f02a_s, [P.ex_draws [1] [4] [1000]], s1, (P.ex_draws [] [] []), s2.
-  repeat (split; [assumption|]). split; [|split; [exact Er|split; [exact Ee|lia]]].
+  split; [exact E1|]. split; [exact E2|]. split; [exact E3|]. split; [exact E4|]. split; [|split; [exact Er|split; [exact Ee|lia]]].
   unfold DrawsOK, nonneg. cbn. repeat constructor; lia.
 Qed.
 
@@ -1659,8 +1659,9 @@ Proof.
   assert (E : f02b_check = true) by (vm_compute; reflexivity). unfold f02b_check in E.
   apply andb_true_iff in E as [E E7]. apply andb_true_iff in E as [E E6]. apply andb_true_iff in E as [E E5]. apply andb_true_iff in E as [E _].
   apply andb_true_iff in E as [E E3]. apply andb_true_iff in E as [E1 E2]. apply negb_true_iff in E1, E2. apply Z.eqb_eq in E6.
-  destruct (event_step b_cf (f02b_s <| dr := R.nodraws |>)) as [[[] s2]| |] eqn:Ee; try discriminate. apply Z.eqb_eq in E7.
-  exists b_cf, f02b_s, R.nodraws, s2. repeat (split; [assumption|]). split; [apply DrawsOK_nodraws|]. split; [exact Ee|lia].
+  destruct (event_step b_cf (f02b_s <| dr := R.nodraws |>)) as [[[] s2]| |] eqn:Ee; [|discriminate E7|discriminate E7]. apply Z.eqb_eq in E7.
+  exists b_cf, f02b_s, R.nodraws, s2. split; [exact E1|]. split; [exact E2|]. split; [exact E3|]. split; [exact E5|].
+  split; [apply DrawsOK_nodraws|]. split; [exact Ee|lia].
 Qed.
 
 Print Assumptions event_step_clk2.
